@@ -104,6 +104,8 @@ func main() {
 		select {
 		case o := <-res:
 			fmt.Fprintln(w, o)
+			// the race detector (halt_on_error) or a hang ends the process: nothing observed so far may be lost
+			w.Flush()
 		case <-time.After(to):
 			// a hung Bind holds nject's global debug read-lock: this process is unusable now
 			fmt.Fprintln(w, "HANG")
